@@ -129,7 +129,8 @@ class Disp:
 
 
 class World:
-    def __init__(self, types=("A", "B"), start=1000.0):
+    def __init__(self, types=("A", "B"), start=1000.0, probing=True):
+        self.probing = probing
         self.loop = VLoop(start=start)
         self.clock = VClock(self.loop)
         self.clock.__enter__()
@@ -221,6 +222,8 @@ class World:
             return 0
 
     def probe(self):
+        if not self.probing:
+            return {}
         p = {}
         for t in self.types:
             p[t] = self.lookup(t)
@@ -280,6 +283,16 @@ class World:
                 except BaseException as e:  # noqa: BLE001
                     self.events.append((name, "left", sid, self.classify(e), self.probe() == before))
                     raise
+            elif k == "xscope":
+                # general form: ("xscope", is_async, sid, label, kwargs) - label / logger / trace_id chosen by the driver
+                _, is_async, sid, label, kw = op
+                if is_async:
+                    async with ctx.scope(label, **kw):
+                        self._register_group(sid)
+                        await self.block(name)
+                else:
+                    with ctx.scope(label, **kw):
+                        await self.block(name)
             elif k == "update":
                 with ctx.updated(*mk(op[1])):
                     await self.block(name)
